@@ -13,7 +13,10 @@ def run(ctx, out):
     out.distribution["layout_differences"] = len(diffs)
     if diffs:
         out.notes.append({"layout_differences": diffs[:10]})
-    changed = sorted({d["struct"] for d in diffs})
+    extra = [d["struct"] for d in diffs if d.get("what") == "not in specification table"]
+    if extra:
+        out.notes.append({"types_without_specification_entry (not judged by C03; generic theorems and C01/C02 apply)": extra})
+    changed = sorted({d["struct"] for d in diffs if d.get("what") != "not in specification table"})
     # users of changed structs are affected too
     def uses(s, name, depth=0):
         def t(ty):
